@@ -98,7 +98,7 @@ static void enumerate(Result& R, const Setup& su, int depth, int max_cells_with_
         size_t k = std::min<size_t>(n, max_cells_with_events); long combos = 1; for (size_t i = 0; i < k; i++) combos *= 3;
         for (long code = 0; code < combos; code++) { if (h.empty() && !R.args.mine(g_unit++)) continue;   /* first-step assignments are dealt to the parallel shards */ std::vector<int> ev(n, NOTHING); long c = code; for (size_t i = 0; i < k; i++) { ev[i] = c % 3; c /= 3; }
             History h2 = h; h2.push_back(ev); long ph = 0; RunOut o = run_history(su, h2, &ph); R["transitions"]++; R["states"]++; R["phase_boundaries_checked"] += ph; R["divisions_executed"] += o.divisions; R["removals_executed"] += o.removals;
-            R.mix(o.final_key + o.err);
+            R.mix(o.final_key + o.err); R.distinct_case(std::to_string(su.kind) + "|" + o.final_key);
             if (!o.err.empty()) { R.violation(clause_of(o.err) + "|setup=" + std::to_string(su.kind), "population of " + std::to_string(su.ncells) + " cells (setup " + std::to_string(su.kind) + "), history " + hist_json(h2) + ": " + o.err, "ncells=" + std::to_string(su.ncells) + "\nkind=" + std::to_string(su.kind) + "\nhist=" + hist_text(h2) + "\n"); continue; }
             if (o.threw) { R["histories_ended_by_exception"]++; R.tables["exceptions"][o.what.substr(0, 60)]++; continue; }
             if ((int)h2.size() < depth) frontier.push_back(h2);
@@ -110,11 +110,11 @@ static void enumerate(Result& R, const Setup& su, int depth, int max_cells_with_
 static void explore(Result& R) {
     const bool th = R.args.thorough();
     std::vector<Setup> setups = {{2, 0}, {3, 0}, {3, 1}, {3, 2}, {3, 3}}; if (th) setups.push_back({4, 0});
-    for (auto& su : setups) enumerate(R, su, th ? 3 : 2, th ? 4 : 3);
+    for (auto& su : setups) enumerate(R, su, (th && su.ncells < 4) ? 3 : 2, th ? 4 : 3);   // thorough: depth 3 for 2-3 cells, depth 2 (81 + 81*81 histories) for 4 cells
     sw::cleanup_scratch();
-    R["evaluations"] = R["transitions"]; R["distinct_nontrivial"] = R["states"]; R["traces_validated_against_impl"] = R["transitions"];
+    R["evaluations"] = R["transitions"]; R["distinct_nontrivial"] = R["states"]; /* replaced by the measured union of final-population keys in the driver */ R["traces_validated_against_impl"] = R["transitions"];
     if (R.args.nshards == 1 && (R["divisions_executed"] == 0 || R["removals_executed"] == 0)) R.internal_error = "no division or no removal was ever executed (vacuous)";
-    R.strings["rule"] = "a state = a history of steps; a step assigns one of {nothing, divide, vanish} to every cell and runs 5 real solver iterations; all assignments are enumerated breadth first; at every H6 phase boundary (begin, divide, face_types, refine, contact, polarize, forces, integrate, stats, remove, end) and after every iteration: local id == list index, ids unique and fresh, couplings designate live nodes of existing other epithelial cells (phases where they are used), face owner == cell, face type index < number of face types";
+    R.strings["rule"] = "distinct_nontrivial = number of DISTINCT final populations (hashed canonical key of ids, list order, meshes and couplings) reached by the histories; a state = a history of steps; a step assigns one of {nothing, divide, vanish} to every cell and runs 5 real solver iterations; all assignments are enumerated breadth first; at every H6 phase boundary (begin, divide, face_types, refine, contact, polarize, forces, integrate, stats, remove, end) and after every iteration: local id == list index, ids unique and fresh, couplings designate live nodes of existing other epithelial cells (phases where they are used), face owner == cell, face type index < number of face types";
     R.assumptions = {"cells are 42-node icospheres 0.05 apart (adhesion cut-off 0.1) so that couplings exist", "divide = division volume set to 0.9 V at a division opportunity; vanish = mesh scaled by 0.8 with the (per cell copy of the) type's minimum volume at 0.6 V", "a history ended by a std::exception (e.g. refinement failure) is counted, not flagged"};
 }
 static int replay(const Replay& rp, Result& R) { Setup su{(int)rp.geti("ncells"), (int)rp.geti("kind")}; History h = hist_parse(rp.get("hist")); RunOut a = run_history(su, h), b = run_history(su, h); sw::cleanup_scratch();
